@@ -134,7 +134,7 @@ def v2(ctx, fx, U):
         fv = vals(fn)
         for b, t in fn.calls():
             if t.get("resolved") in lookup_fns and t.get("resolved") != fn.name:
-                callee = fx.fns[t["resolved"]]
+                callee = fx.view(t["resolved"])
                 n = fv.call_node(b)
                 # the digest-carrying parameter(s) of callee
                 for (lf, lb, ln) in U.lookups:
@@ -154,22 +154,11 @@ def v2(ctx, fx, U):
 def v4(ctx, fx, U):
     ctx.floor("C03.V4", "digest lookups", len(U.lookups), 2)
     for (fn, b, n) in U.lookups:
-        fv = vals(fn)
         key = n.kids[1]
         line = fn.term(b).get("line")
-        good = []
-        for (bb, tt, ft, c) in bool_switches(fn):
-            if c.kind == "call" and c.d["term"].get("name") == "contains" and len(c.kids) > 1 and recv_is_field(c, "duplicate_hash_check") and c07.same_key(c.kids[1], key):
-                good.append((bb, ft))
-        pushes = []
-        for b2, t2 in fn.calls():
-            n2 = fv.call_node(b2)
-            if t2.get("name") == "push" and recv_is_field(n2, "duplicate_hash_check") and len(n2.kids) > 1 and c07.same_key(n2.kids[1], key):
-                pushes.append(b2)
-        c1 = bool(good) and guarded(fn, b, good)
-        c2 = bool(pushes) and b not in cfg.reachable(fn, [0], removed_blocks=pushes)
+        c1, c2, F = unpackmodel.dup_guard(fn, b, key, c07.same_key)
         if c1 and c2:
-            ctx.ok("C03.V4", fn, "dup-check", "lookup dominated by contains(digest)==false and push(digest), whether or not the lookup hits", line=line)
+            ctx.ok("C03.V4", fn, "dup-check", "lookup dominated by the not-seen-before edge of the test on `%s` and by the recording of the digest in it, whether or not the lookup hits" % F, line=line)
         else:
             ctx.finding("C03.V4", fn, "dup-check", "a digest is looked up without the duplicate-digest check%s: the same disclosure can be applied at two positions" % ("" if not c1 else " recording it (push)"), line=line)
 
